@@ -452,7 +452,33 @@ def _run_polars(case, T, df):
         return {"kind": "other", "exc_type": type(e).__name__, "msg": str(e)[:300], "where": inner}
 
 
+class _Unreadable(Exception):
+    pass
+
+
+def _tolist(series):
+    try:
+        return series.to_list()
+    except (ValueError, OverflowError) as e:  # e.g. "year 47904 is out of range" for python datetime
+        raise _Unreadable(str(e)) from e
+
+
 def eval_polars(case):
+    try:
+        return _eval_polars(case)
+    except _Unreadable:
+        ev = Eval()
+        ev.skipped = "python-cannot-represent-coerced-values"
+        return ev
+    except BaseException as e:  # pyo3 PanicException derives from BaseException and would kill the worker
+        if type(e).__name__ != "PanicException":
+            raise
+        ev = Eval()
+        ev.skipped = "polars-rust-panic-while-reading-values"
+        return ev
+
+
+def _eval_polars(case):
     from pandera.engines import polars_engine as ple
 
     ev = Eval()
@@ -508,7 +534,7 @@ def eval_polars(case):
             return ev
         if route != "frame" and ("z" not in out.columns or out["z"].to_list() != list(range(len(elems)))):
             ev.add(f"ok-other-column-changed:{tag}", {"z": out["z"].to_list() if "z" in out.columns else None})
-        outs = out["a"].to_list()
+        outs = _tolist(out["a"])
         if must_fail:
             ev.add(f"accepted-unconvertible:{tag}", {"elements": [V.show(elems[i]) for i in must_fail],
                                                      "out": [V.show(x) for x in outs], "out_dtype": str(out["a"].dtype)})
@@ -536,7 +562,7 @@ def eval_polars(case):
             ev.add(f"recoerce-raised:{tag}", {"type": type(e).__name__, "msg": str(e)[:200],
                                               "out": [V.show(x) for x in outs], "out_dtype": str(out["a"].dtype)})
         else:
-            if again["a"].dtype != out["a"].dtype or [L.vkey(x) for x in again["a"].to_list()] != [L.vkey(x) for x in outs]:
+            if again["a"].dtype != out["a"].dtype or [L.vkey(x) for x in _tolist(again["a"])] != [L.vkey(x) for x in outs]:
                 ev.add(f"not-idempotent:{tag}", {"once": [V.show(x) for x in outs], "twice": [V.show(x) for x in again["a"].to_list()],
                                                  "once_dtype": str(out["a"].dtype), "twice_dtype": str(again["a"].dtype)})
         return ev
@@ -582,6 +608,8 @@ def _pl_pools():
                    "2020-02-30", "2020-01-01T12:30:00", "1999-12-31T23:59:59", "12:30:00", " 1", "1e3", "70000", "5000000000"],
         "Int64": [0, 1, -1, 2, 3, 127, 128, -128, -129, 255, 256, 300, 32767, 32768, 65535, 65536, 2147483647, 2147483648,
                   4294967295, 4294967296, 9007199254740993, 9223372036854775807, -9223372036854775808],
+        # temporal targets: python datetime/timedelta cannot represent the extremes when values are read back
+        "Int64:temporal": [0, 1, -1, 2, 3, 127, 300, 32768, 65536, 86400000, 2147483648],
         "Float64": [0.0, 1.0, -1.0, 1.5, 2.5, -0.5, 0.1, 300.0, 1e10, 1e300, 16777217.0, {"t": "nan"}, {"t": "inf"}],
         "Boolean": [True, False],
     }
@@ -593,6 +621,10 @@ def strat_polars():
     parts = {}
     for s in specs:
         for ph, cells in pools.items():
+            if ph == "Int64:temporal":
+                continue
+            if ph == "Int64" and s["k"] in ("date", "datetime", "time", "duration"):
+                cells = pools["Int64:temporal"]
             good, bad, grey = [], [], []
             for c in cells:
                 cl, _ = L.own(s, ph, V.decode(c))
@@ -693,3 +725,28 @@ def _k_index_subclass(family, case, disc):
 def _k_decimal_check_index(family, case, disc):
     return (family == "pandas" and case["dtype"]["k"] == "decimal" and disc.kind == "wrong-channel:IndexingError:decimal"
             and case.get("index") is not None and all(V.is_null(v) for v in _elems(case)))
+
+
+@known.finding("C10/polars-nulls-listed-once-any-element-fails")
+def _k_pl_nulls(family, case, disc):
+    return (family == "polars" and disc.kind.startswith("null-listed-as-failure-case:pl:")
+            and any(c is None for c in case["cells"]))
+
+
+@known.finding("C10/polars-category-try-coerce-typeerror")
+def _k_pl_cat_typeerror(family, case, disc):
+    return (family == "polars" and case["dtype"]["k"] == "category"
+            and disc.kind == "wrong-channel:TypeError:pl:category"
+            and "LazyFrame" in str((disc.detail or {}).get("msg", "")))
+
+
+@known.finding("C10/polars-category-coerce-casts-all-columns")
+def _k_pl_cat_allcols(family, case, disc):
+    return (family == "polars" and case["dtype"]["k"] == "category" and case["route"] != "frame"
+            and disc.kind == "ok-other-column-changed:pl:category")
+
+
+@known.finding("C10/polars-category-fails-own-check")
+def _k_pl_cat_check(family, case, disc):
+    return (family == "polars" and case["dtype"]["k"] == "category"
+            and disc.kind in ("coerced-fails-own-check:pl:category", "wrong-channel:SchemaError:WRONG_DATATYPE:pl:category"))
